@@ -7,9 +7,7 @@ import DepsDev.Proofs.C19DepText
 
 namespace DepsDev.Proofs.C19
 open DepsDev DepsDev.Gen DepsDev.Model.Resolve DepsDev.Model.Resolve.Attr DepsDev.Model.Resolve.AttrText
-
-/-- every byte is ASCII. -/
-def isAscii (v : Bytes) : Bool := v.all fun b => decide (b.toNat < 128)
+open DepsDev.Model.Resolve.AttrMachine
 
 theorem hexValue_append (n : Nat) (s r : Bytes) (v : Nat) (x : Nat) (h : hexValue n s v = some x) :
     hexValue n (s ++ r) v = some x := by
